@@ -598,8 +598,8 @@ class Interp:
     # ------------------------------------------------------------------ units
     def run_unit(self, unit, info):
         ctx = self.ctx
-        gl = unit.get_globals()
         args = unit.setup(ctx)
+        gl = unit.get_globals()
         frame = Frame(unit, info, {}, gl)
         self.bind_params(info, frame, args)
         frame.old = NS({k: self.snapshot(v) for k, v in frame.locals.items()})
@@ -1158,6 +1158,13 @@ class Interp:
                 raise Unsupported("property setter")
             self.heap_write(obj)
             obj.fields[name] = v
+            if obj.clsname == "ArrFlags" and name == "writeable":
+                if not isinstance(v, bool):
+                    raise Unsupported("symbolic writeable flag")
+                arr = obj.fields["arr"]
+                if v and arr.base is not None and not arr.base.writeable:
+                    raise PyRaise(ValueError, ("cannot set WRITEABLE flag to True of this array",))
+                arr.writeable = v
             return
         if isinstance(obj, SArr) and name == "flags":
             raise Unsupported("flags assignment")
@@ -1246,7 +1253,7 @@ class Interp:
                     x = self.eval(v.value, f)
                 except (Unsupported, PyRaise):
                     x = "<?>"
-                if is_sym(x):
+                if is_sym(x) or _has_sym(x):
                     return self.models.fstring(self, e, f)
                 fmt = ""
                 if v.format_spec is not None:
@@ -1422,6 +1429,9 @@ class Interp:
             return self.call_funcref(fn, args, kwargs, f)
         if isinstance(fn, PyRaise):
             raise Unsupported("calling an exception object")
+        if isinstance(fn, SObj):
+            m = self.getattr(fn, "__call__", f, node)
+            return self.call(m, args, kwargs, f, node)
         # model registered for this very callable?
         model = self.models.lookup(fn)
         if model is not None:
